@@ -177,6 +177,50 @@ def check_settings(case):
     return r
 
 
+# ----------------------------------------------------------------------------- step bound under extreme winds
+@st.composite
+def _lob_case(draw):
+    h = draw(st.sampled_from([0.25, 0.5, 1.0, 2.0]))
+    spec = {"table": draw(st.sampled_from(["TableG1", "TableGS", "TableG7"])), "bc": draw(st.floats(0.02, 0.3)), "mv": draw(st.floats(80.0, 400.0)),
+            "wdl": None, "sh": 2.0, "twist": 0.0, "zero": 0.0, "look": 0.0, "rel": draw(st.floats(40.0, 87.0)) * gen.DEG, "cant": 0.0,
+            "atmo": {"kind": "icao", "alt": 0.0},
+            "winds": [[draw(st.floats(20.0, 130.0)), draw(st.one_of(st.just(math.pi), st.floats(2.4, 3.9), st.floats(-math.pi, math.pi))), 1e8]]}
+    return {"shot": spec, "h": h, "R": draw(st.floats(50.0, 400.0))}
+
+
+def check_lob(case):
+    """slow lobbed projectiles in strong winds: near the apex the air speed can be several times the ground speed"""
+    r = Res()
+    spec, h = case["shot"], case["h"]
+    cfg = {"max_calc_step_size_feet": h, "cMinimumVelocity": 0.0, "cMaximumDrop": -200.0}
+    sh = build.shot(spec)
+    _, Exceeded = build.counting(sh.atmo, 400000)
+    try:
+        tr, _ = build.trace(build.calculator(cfg), sh, case["R"])
+    except Exceeded:
+        r.label("too-long")
+        return r
+    w = spec["winds"][0]
+    wx, wz = w[0] * math.cos(w[1]), w[0] * math.sin(w[1])
+    worst = 0.0
+    ratio = 1.0
+    for a, b in zip(tr, tr[1:]):
+        dt = b.t - a.t
+        adv = math.sqrt((b.x - a.x - wx * dt) ** 2 + (b.y - a.y) ** 2 + (b.w - a.w - wz * dt) ** 2)
+        worst = max(worst, adv)
+        if dt > 0:
+            g = math.sqrt((b.x - a.x) ** 2 + (b.y - a.y) ** 2 + (b.w - a.w) ** 2)
+            ratio = max(ratio, adv / max(g, 1e-9))
+        if adv > h * (1 + 1e-9):
+            r.bad("C18:step:advance-exceeds-maximum", f"max step {h!r} ft: one step advances {adv!r} ft through the air (wind {w[0]!r} fps from {math.degrees(w[1])!r} deg, "
+                  f"ground advance {math.sqrt((b.x - a.x) ** 2 + (b.y - a.y) ** 2 + (b.w - a.w) ** 2)!r} ft at x={a.x!r} ft)")
+            break
+    r.target = worst / h
+    r.nontrivial = ratio > 2.0
+    r.label("air/ground>2" if ratio > 2.0 else "air/ground<=2")
+    return r
+
+
 # ===================================================================================================== (b) locality machine
 class Locality:
     MV = 1000.0
@@ -354,6 +398,13 @@ def _check_name(r, text, unit_name, channels, tmpdir=None, number="1.5", pad=(""
             q = _parse_value(s, None)
             if q is None or q.units != want or abs(q.unit_value - float(number)) > 1e-12 * max(1.0, abs(float(number))):
                 r.bad(f"C18:parse:_parse_value:wrong-result:{unit_name}", f"_parse_value({s!r}) = {q!r}")
+            elif len(ref.UNITS_BY_DIM[dim]) > 1:
+                # history: the caller re-displays the quantity it got (legal, C13) and parses the same string again
+                other_u = next(u for u in ref.UNITS_BY_DIM[dim] if u != unit_name)
+                q << Unit[other_u]
+                q2 = _parse_value(s, None)
+                if q2 is None or q2.units != want or abs(q2.unit_value - float(number)) > 1e-12 * max(1.0, abs(float(number))):
+                    r.bad(f"C18:parse:_parse_value:second-parse-differs:{unit_name}", f"_parse_value({s!r}) after the first result was re-displayed in {other_u}: {q2!r}")
         except Exception as exc:  # noqa
             r.bad(key("_parse_value", "rejected"), f"_parse_value({s!r}) raised {type(exc).__name__}: {exc}")
     if "toml" in channels and tmpdir is not None:
@@ -507,6 +558,7 @@ def check_unknown(case):
 def parts(tier):
     return [
         Part("settings", strategy=_settings_case(), check=check_settings, n={"quick": 1200, "thorough": 24000}),
+        Part("step-in-strong-wind", strategy=_lob_case(), check=check_lob, n={"quick": 480, "thorough": 10000}),
         Part("locality", kind="machine", interp=Locality, rules=LOC_RULES, n={"quick": 800, "thorough": 16000},
              steps={"quick": 14, "thorough": 30}),
         Part("names-exhaustive", kind="enum", cases=_name_cases, check=check_names, exhaustive=True),
